@@ -15,17 +15,32 @@ def isPunct (c : Char) : Bool := c == ',' || c == '[' || c == ']' || c == '+' ||
 /-- characters of word tokens: identifiers, numbers, directive names (leading '.', '$', '%', '#', '_') -/
 def isTokChar (c : Char) : Bool := isWordChar c || c == '.' || c == '$' || c == '%' || c == '#'
 
-/-- tokens of one source line: the text up to the first `;`, split at blanks, punctuation separate -/
-def tokenizeAux : List Char → List Char → List String → List String
-  | [], cur, acc => (if cur.isEmpty then acc else String.ofList cur.reverse :: acc).reverse
-  | c :: rest, cur, acc =>
+/-- quote characters: a quoted literal ('c' or "text") is one token; `;`, `,`, `:` and blanks inside
+    it are ordinary characters (`LineOjectFactory.PATTERN_INSTRUCTION_CONTENT` since fix 87bced4) -/
+def isQuote (c : Char) : Bool := c == '"' || c == '\''
+
+/-- scanner mode: `none` = between / inside plain tokens; `some (q, esc)` = inside a literal opened by
+    `q`, `esc` = the previous character was a backslash -/
+abbrev QMode := Option (Char × Bool)
+
+/-- tokens of one source line: the text up to the first `;` outside a quoted literal, split at
+    blanks, punctuation separate, quoted literals whole (an unterminated literal runs to the end) -/
+def tokenizeAux : QMode → List Char → List Char → List String → List String
+  | _, [], cur, acc => (if cur.isEmpty then acc else String.ofList cur.reverse :: acc).reverse
+  | none, c :: rest, cur, acc =>
     let flush := if cur.isEmpty then acc else String.ofList cur.reverse :: acc
     if c == ';' then flush.reverse
-    else if isSpaceChar c then tokenizeAux rest [] flush
-    else if isPunct c then tokenizeAux rest [] (String.ofList [c] :: flush)
-    else tokenizeAux rest (c :: cur) acc
+    else if isQuote c then tokenizeAux (some (c, false)) rest [c] flush
+    else if isSpaceChar c then tokenizeAux none rest [] flush
+    else if isPunct c then tokenizeAux none rest [] (String.ofList [c] :: flush)
+    else tokenizeAux none rest (c :: cur) acc
+  | some (q, esc), c :: rest, cur, acc =>
+    if esc then tokenizeAux (some (q, false)) rest (c :: cur) acc
+    else if c == '\\' then tokenizeAux (some (q, true)) rest (c :: cur) acc
+    else if c == q then tokenizeAux none rest [] (String.ofList (c :: cur).reverse :: acc)
+    else tokenizeAux (some (q, false)) rest (c :: cur) acc
 
-def tokenize (line : List Char) : List String := tokenizeAux line [] []
+def tokenize (line : List Char) : List String := tokenizeAux none line [] []
 
 /-- vocabulary: mnemonics and registers, lower case -/
 structure Vocab where
